@@ -1261,17 +1261,25 @@ class Stack(list):
 
         :return bool:
         """
-        # TODO: Implement
-        # if sequence == 0xffffffff:
-        #     return False
-        # locktime = decode_num(self[-1])
-        # if locktime < 0:
-        #     return False
-        # if locktime != 0xffffffff:
-        #     if version < 2:
-        #         return False
-        # return True
-        return NotImplementedError
+        if len(self[-1]) > 5:
+            return False
+        locktime = decode_num(self[-1])
+        if locktime < 0:
+            return False
+        # Operand with the disable flag set: behaves as a NOP (BIP112)
+        if locktime & SEQUENCE_LOCKTIME_DISABLE_FLAG:
+            return True
+        if version < 2:
+            return False
+        if sequence & SEQUENCE_LOCKTIME_DISABLE_FLAG:
+            return False
+        mask = SEQUENCE_LOCKTIME_TYPE_FLAG | SEQUENCE_LOCKTIME_MASK
+        # Both values must be of the same type: blocks or units of 512 seconds
+        if ((locktime & mask) < SEQUENCE_LOCKTIME_TYPE_FLAG) != ((sequence & mask) < SEQUENCE_LOCKTIME_TYPE_FLAG):
+            return False
+        if (locktime & mask) > (sequence & mask):
+            return False
+        return True
 
     def op_nop4(self):
         return True
